@@ -149,6 +149,34 @@ type vLine struct {
 	Node     string `json:"node"`
 	Decision bool   `json:"decision"`
 	Info     string `json:"info"`
+
+	// simulation lines (SimInit, Crash, Restart, StopFaults, End, Api ...)
+	Names []string `json:"names"`
+	Views []vView  `json:"views"`
+	Sim   vSimCfg  `json:"sim"`
+	Call  string   `json:"call"`
+	Res   string   `json:"res"`
+}
+
+type vView struct {
+	N       string    `json:"n"`
+	Members []vMember `json:"members"`
+}
+
+// vSimCfg: the configuration constants the cluster judge needs (times in ms)
+type vSimCfg struct {
+	N             int   `json:"nodes"`
+	ProbeInterval int64 `json:"probeInterval"`
+	ProbeTimeout  int64 `json:"probeTimeout"`
+	AwMax         int   `json:"awMax"`
+	SuspMult      int   `json:"suspMult"`
+	MaxMult       int   `json:"maxMult"`
+	PushPull      int64 `json:"pushPull"`
+	GossipDead    int64 `json:"gossipDead"`
+	TCPTimeout    int64 `json:"tcpTimeout"`
+	MaxDelay      int64 `json:"maxDelay"`
+	Healthy       bool  `json:"healthy"`
+	Settle        int64 `json:"settle"`
 }
 
 var vNoRec = vRec{State: "absent", Vsn: []int{}}
@@ -157,7 +185,7 @@ var vNoTimer = vTimer{Conf: []string{}}
 func vBlankLine(ev string) *vLine {
 	return &vLine{Ev: ev, Pre: vNoRec, Post: vNoRec, Tpre: vNoTimer, Tpost: vNoTimer,
 		Claim: vClaim{Vsn: []int{}}, Bcast: []vBcast{}, Events: []vEvent{}, Members: []vMember{}, MembersPre: []vMember{},
-		Removed: []string{}, SelfState: "absent"}
+		Removed: []string{}, SelfState: "absent", Names: []string{}, Views: []vView{}}
 }
 
 // ---------------------------------------------------------------------------
